@@ -192,6 +192,8 @@ def check_post(ip, c, a, old, kind, res):
         if matched.when is not None:
             st.oblige('raises-only-when:%s' % matched.name, matched.when, tags=matched.tags)
         for item in matched.ensures:
+            if callable(item[1]):
+                item = (item[0], item[1](ip)) + tuple(item[2:])
             st.oblige('raises-ensures:%s:%s' % (matched.name, item[0]), item[1], tags=item[2] if len(item) > 2 else matched.tags)
     check_frame(ip, c, a, old, matched.modifies if kind == 'raise' and matched is not None and matched.modifies is not None else None)
 
